@@ -13,6 +13,17 @@ def vid(pos):
     return int(round(pos.getX()))
 
 
+def eid0(n, g):
+    """edge ids are consecutive integers starting at 0 for half of the graphs (0 is an ordinary id - the network reader
+    numbers edges from 0 -) and at 1 for the others"""
+    return (n + len(g) + sum(x[2] for x in g)) % 2
+
+
+def arg(net, v, form):
+    """a node argument as its id (form 0) or as the Node object of the network (form 1): both are documented"""
+    return net.getNode(v) if form else v
+
+
 def build_network(n, g):
     """g: list of [s, t, w, o]; edge j (1-based) has interior vertices 100+j, 200+j from stored source to target."""
     from tracklib.core.network import Network, Node, Edge
@@ -23,7 +34,7 @@ def build_network(n, g):
         net.addNode(Node(k, vcoord(k)))
     for j, (s, t, w, o) in enumerate(g, start=1):
         geom = Track([Obs(vcoord(s)), Obs(vcoord(100 + j)), Obs(vcoord(200 + j)), Obs(vcoord(t))])
-        e = Edge(j, geom)
+        e = Edge(j - 1 + eid0(n, g), geom)
         e.orientation = o
         e.weight = w
         net.addEdge(e, Node(s, vcoord(s)), Node(t, vcoord(t)))
@@ -47,8 +58,9 @@ def dist_events(n, g, id0, cuts, with_lists=True):
     net = build_network(n, g)
     for s in range(n):
         for t in range(n):
+            f = (s + 2 * t + len(g)) % 4            # id/id, Node/id, id/Node, Node/Node
             with core.quiet():
-                d = net.shortest_distance(s, t)
+                d = net.shortest_distance(arg(net, s, f & 1), arg(net, t, f >> 1))
             ev.append({"id": id0 + len(ev), "ev": "dist", "n": n, "g": g, "s": s, "t": t, "d": wire(d), "api": "pair"})
         if with_lists:
             with core.quiet():
@@ -64,15 +76,17 @@ def dist_events(n, g, id0, cuts, with_lists=True):
             net4 = build_network(n, g)
             with core.quiet():
                 net4.prepare(cut=cut, verbose=False)
-                pairs = [[s, t, wire(net4.prepared_shortest_distance(s, t))] for s in range(n) for t in range(n)
-                         if net4.has_prepared_shortest_distance(s, t)]
+                pairs = [[s, t, wire(net4.prepared_shortest_distance(arg(net4, s, (s + t) & 1), arg(net4, t, (s + 2 * t + 1) >> 1 & 1)))]
+                         for s in range(n) for t in range(n)
+                         if net4.has_prepared_shortest_distance(arg(net4, s, (s + t + 1) & 1), arg(net4, t, (s + 2 * t) >> 1 & 1))]
             ev.append({"id": id0 + len(ev), "ev": "table", "n": n, "g": g, "cut": cut, "pairs": pairs, "api": "prepare"})
     net3 = build_network(n, g)
     with core.quiet():
         net3.prepare(verbose=False)
     for s in range(n):
         for t in range(n):
-            d = net3.prepared_shortest_distance(s, t)
+            f = (2 * s + t + len(g)) % 4
+            d = net3.prepared_shortest_distance(arg(net3, s, f & 1), arg(net3, t, f >> 1))
             ev.append({"id": id0 + len(ev), "ev": "dist", "n": n, "g": g, "s": s, "t": t, "d": wire(d), "api": "prepared"})
     return ev
 
@@ -87,7 +101,8 @@ def path_events(n, g, id0):
             e = {"id": id0 + len(ev), "ev": "path", "n": n, "g": g, "s": s, "t": t, "has": False, "path": [], "geom": []}
             try:
                 with core.quiet():
-                    p = net.shortest_path(s, t)
+                    f = (s + 3 * t + len(g)) % 4
+                    p = net.shortest_path(arg(net, s, f & 1), arg(net, t, f >> 1))
                 if p is not None:
                     e["has"] = True
                     e["path"] = [int(x) for x in p.path]
@@ -137,7 +152,7 @@ def subnet_events(n, g, id0, rnd):
             with core.quiet():
                 net = build_network(n, g)
                 sub = net.sub_network(s, (1e300 if cut >= 999999 else cut), "TOPOLOGIC", verbose=False)
-            e["ids"] = [int(x) for x in sub.getEdgesId()]
+            e["ids"] = [int(x) + 1 - eid0(n, g) for x in sub.getEdgesId()]
         except (Exception, SystemExit) as ex:
             e["exc"] = repr(ex)[:200]
         ev.append(e)
